@@ -585,11 +585,11 @@ def from_be_bytes(eng, st, site, func, target, args, dty):
         if a.src is not None:
             nm = "be(%r)" % (a.src[1] if a.src[0] == "slice" else a.src,)
             return [(st, eng.named_int(dty, nm, bits_sym=True))]
-        if a.elems is not None and all(isinstance(e, VInt) and e.lin.is_const() for e in a.elems):
-            v = 0
+        if a.elems is not None and all(isinstance(e, VInt) for e in a.elems):
+            lin = Lin.const(0)
             for e in a.elems:
-                v = v * 256 + e.lin.c
-            return [(st, eng.const_int(dty, v))]
+                lin = lin.scale(256) + e.lin
+            return [(st, VInt(dty, lin))]
     return [(st, eng.top_int(dty))]
 
 
@@ -1032,3 +1032,65 @@ def iter_collect(eng, st, site, func, target, args, dty):
     st.emit(("collect", it.kind if isinstance(it, VIter) else None, src_cell,
              it.extra.key if isinstance(it, VIter) and isinstance(it.extra, VClosure) else None, site_info(site)))
     return [(st, new_vec(eng, st, ln.lin, None, None))]
+
+
+# ------------------------------------------------------------------ checked / saturating arithmetic, min / max
+
+@stub(r"^core::num::<impl [ui](8|16|32|64|128|size)>::(checked|saturating|wrapping|overflowing)_(add|sub|mul)$")
+def int_arith(eng, st, site, func, target, args, dty):
+    mode, op = target["name"].rsplit("::", 1)[1].split("_")
+    a, b = args[0], args[1]
+    if not (isinstance(a, VInt) and isinstance(b, VInt)):
+        return None
+    ty = a.ty
+    lo, hi = eng.int_range(ty)
+    if op == "add":
+        m = a.lin + b.lin
+    elif op == "sub":
+        m = a.lin - b.lin
+    else:
+        if a.lin.is_const():
+            m = b.lin.scale(a.lin.c)
+        elif b.lin.is_const():
+            m = a.lin.scale(b.lin.c)
+        else:
+            return None
+    inr = [c_le(Lin.const(lo), m), c_le(m, Lin.const(hi))]
+    out = []
+    s_in = st.fork()
+    if all(eng.add(s_in, c) for c in inr):
+        v = VInt(ty, m)
+        if mode == "checked":
+            out.append((s_in, mk_option(eng, dty, True, v)))
+        elif mode == "overflowing":
+            out.append((s_in, VAdt(dty, Lin.const(0), {0: (v, FALSE)})))
+        else:
+            out.append((s_in, v))
+    for c, sat in ((c_lt(m, Lin.const(lo)), lo), (c_lt(Lin.const(hi), m), hi)):
+        s2 = st.fork()
+        if eng.add(s2, c):
+            if mode == "checked":
+                out.append((s2, mk_option(eng, dty, False)))
+            elif mode == "saturating":
+                out.append((s2, eng.const_int(ty, sat)))
+            elif mode == "overflowing":
+                out.append((s2, VAdt(dty, Lin.const(0), {0: (eng.top_int(ty), TRUE)})))
+            else:
+                w, _ = eng.int_info(ty)
+                out.append((s2, VInt(ty, m + (Lin.const(1 << w) if sat == lo else Lin.const(-(1 << w))))))
+    return out
+
+
+@stub(r"^std::cmp::(min|max)$|^std::cmp::Ord::(min|max)$|^core::cmp::(min|max)$|^core::cmp::Ord::(min|max)$")
+def min_max(eng, st, site, func, target, args, dty):
+    a, b = args[0], args[1]
+    if not (isinstance(a, VInt) and isinstance(b, VInt)):
+        return None
+    is_min = target["name"].endswith("min")
+    out = []
+    s1 = st.fork()
+    if eng.add(s1, c_le(a.lin, b.lin)):
+        out.append((s1, a if is_min else b))
+    if eng.add(st, c_lt(b.lin, a.lin)):
+        out.append((st, b if is_min else a))
+    return out
